@@ -1,8 +1,9 @@
 package main
 
 import (
-	"github.com/dop251/goja"
 	"fmt"
+	"github.com/dop251/goja"
+	"github.com/xjslang/xjs/ast"
 	"math/rand"
 	"strings"
 
@@ -188,9 +189,24 @@ func genPrintTree(r *rand.Rand, n int, thorough bool, emit func(string)) {
 		}
 	}
 	for i := 0; i < n; i++ {
+		// one tree in six: operator nodes whose tokens have no text (assembled by hand: Operator field and token type only)
+		treegen.BlankOperatorLiterals = i%6 == 5
 		p := treegen.RandomProgram(r, 1+r.Intn(4), 1+r.Intn(4))
+		treegen.BlankOperatorLiterals = false
 		emit("PRINTT " + randPrintCfg(r) + " " + stmtListStr(p.Statements))
+		if i%9 == 0 && len(p.Statements) > 0 {
+			// a node in two places: the first statement listed again at the end
+			emit("PRINTT cm " + stmtListStr(append(append([]ast.Statement{}, p.Statements...), p.Statements[0])))
+		}
 	}
+	treegen.BlankOperatorLiterals = true
+	for _, e := range treegen.SignAdjacency() {
+		emit("PRINTT c " + stmtListStr(treegen.ExprProgram(e).Statements))
+	}
+	for _, op := range []string{"+=", "-="} {
+		emitTree(stmtListStr(treegen.Program(treegen.While(treegen.Ident("a"), treegen.Block(treegen.ExprStmt(treegen.Compound(op, treegen.Member(treegen.Ident("cart"), "total"), treegen.Call(treegen.Ident("price"), treegen.Ident("item"))))))).Statements))
+	}
+	treegen.BlankOperatorLiterals = false
 }
 
 func genMore(stream string, r *rand.Rand, n int, thorough bool, emit func(string)) bool {
